@@ -357,6 +357,23 @@ def Agg.run : Agg → List Op → List Ans
   | _, [] => []
   | a, op :: ops => let (a', r) := a.step op; r.obs :: Agg.run a' ops
 
+/-! ### the EXPRESS built-in functions over aggregates (Builtin.py) -/
+
+def queryOp : Query → Op
+  | .size => .size | .hiindex => .hiindex | .loindex => .loindex
+  | .hibound => .hibound | .lobound => .lobound | .unique => .unique
+
+/-- the argument of a built-in function: a container, or something that is not an aggregate -/
+inductive BArg
+  | container (a : Agg)
+  | other (x : Val)
+
+/-- `SIZEOF(V)`, `HIINDEX(V)`, …: `TypeError` unless `V` is an aggregate, else the container method the function returns
+(`Generated.builtinMethod`, regenerated from Builtin.py) -/
+def Builtin.call (f : BFn) : BArg → R
+  | .other _ => .raised .type
+  | .container a => (a.step (queryOp (builtinMethod f))).2
+
 /-! ### several containers in one interpreter
 
 The Python objects share nothing: every method reads and writes `self` only, and `check_type` reads its two arguments
